@@ -1,6 +1,6 @@
 #!/usr/bin/env python3-vt
 """C09: every operation is all-or-nothing under storage failure; nobody is woken for a change that did not commit; a retry works."""
-import sys, os
+import sys, os, json
 sys.path.insert(0, os.path.dirname(os.path.dirname(os.path.abspath(__file__))))
 import z3
 from gosym.core import *
@@ -55,6 +55,7 @@ def c09(ex, S, T):
     if fs.get('fired') is None:
         return out
     n, kind, e, which = fs['fired']
+    S.fault = (n, kind, e, which, sum(1 for x in ex.events if x[0] == 'stmt' and x[1] <= n and x[2] not in ('BEGIN', 'COMMIT', 'ROLLBACK')))
     tag = 'stmt %s' % kind
     out.append(('failed-statement-is-reported', fs['first_err'] is not None))
     for en in reldb.ENTITIES:
@@ -78,6 +79,43 @@ def c09(ex, S, T):
             commits = [k for k, x in enumerate(S2.events) if x[0] == 'commit']
             out.append(('retry-wakes-only-after-its-commit', all(commits and w > commits[0] for w in wakes)))
     return out
+
+
+REPLAYABLE = ('failed-statement-is-reported', 'nothing-persisted-after-failure', 'nobody-woken-for-an-uncommitted-change', 'no-successful-commit')
+
+
+def with_fault_replay(T):
+    """replay of a C09 counterexample: the same rows and operation on the real build (SQLite) behind a database/sql driver that
+    fails - or cancels the request at - the corresponding step (BEGIN, the k-th statement, COMMIT) of the operation"""
+    T.replayable = lambda label: label.split(':')[0] in REPLAYABLE
+
+    def replay_check(chk, ob, prog, schema, m, S, label):
+        n, kind, e, which, idx = S.fault
+        w = T.scenario(m, schema, S)
+        scn = dict(w['scn'], fault=True)
+        ops = [dict(o) for o in scn['ops']]
+        k = max(i for i, o in enumerate(ops) if o['op'] not in ('dump', 'shift'))
+        ops[k]['fault'] = {'kind': 'error' if which == 0 else 'cancel', 'at': 'begin' if kind == 'BEGIN' else 'commit' if kind == 'COMMIT' else 'stmt', 'idx': idx}
+        scn['ops'] = ops
+        out = replay.run_scenarios([scn])[0]
+        path = replay.save_scenario(chk.prop, '%s-%s' % (ob.name, label), scn, {'obligation': ob.name, 'assertion': label, 'failing statement': '%s #%d (%s)' % (kind, n, e)})
+        if 'error' in out:
+            raise RuntimeError('replay failed: ' + out['error'][-600:])
+        r = out['results'][k]
+        if not r.get('fault_fired'):
+            return False, path          # the real run never reached that step
+        base = label.split(':')[0]
+        changed = json.dumps(out['pre'], sort_keys=True) != json.dumps(out['post'], sort_keys=True)
+        if base == 'failed-statement-is-reported':
+            return (r.get('err') is None), path
+        if base == 'nothing-persisted-after-failure':
+            return changed, path
+        if base == 'nobody-woken-for-an-uncommitted-change':
+            return (bool(r.get('woken')) and not changed), path
+        return (r.get('err') is None and changed), path
+    T.replay_check = replay_check
+    T.no_replay = False
+    return T
 
 
 def publish_batch_one_tx(chk, prog):
@@ -178,7 +216,7 @@ if __name__ == '__main__':
         T.via_client = True
         T.fault_hook = fault_hook
         T.witness_count = 0
-        T.no_replay = True
+        with_fault_replay(T)
         if T.kind in ('nack', 'sweep'):
             T.sizes = {'Topic': 2, 'Subscription': 2, 'Message': 1, 'Delivery': 1}
             T.sizes_thorough = None
@@ -191,5 +229,5 @@ if __name__ == '__main__':
     chk.assumptions += ['transaction contract of the store: Rollback (or a failed COMMIT) restores the state at BEGIN; a cancelled context makes database/sql roll back and a later Rollback return ErrTxDone',
                         'the real DoTx/DoCtxTx wrappers and the generated ent.Tx commit/rollback hook chains are executed, not modelled',
                         'failures inside one SQL statement and lost COMMIT acknowledgements are outside the claim (database contract)',
-                        'counterexamples of this check are not replayed (fault injection into SQLite statements is not available in the replay driver)']
+                        'counterexamples of the first-run assertions (reported / nothing persisted / nobody woken) are replayed on SQLite behind a fault-injecting database/sql driver; the retry assertions and the handler / service / stream obligations are solver counterexamples only']
     chk.finish()
